@@ -1,14 +1,7 @@
 // ---- prelude/tree_frame.rs: ASSUMED frame of the (unverified) B+tree layer on the transaction's allocator state ----
 // rebalance/spill/delete_bucket touch the TxFreelist only through TxFreelist::allocate / TxFreelist::free (T1/T2),
 // so they preserve its invariants; they never touch the file.  This is assumption A-frame of DESIGN section 5 (W2).
-spec fn txfl_inv(f: TxFreelist) -> bool {
-    f.inner.wf() && f.below_hwm() && f.pages_wf() && f.meta.num_pages > 1
-}
-spec fn tree_frame(f0: TxFreelist, f1: TxFreelist) -> bool {
-    &&& (txfl_inv(f0) ==> txfl_inv(f1))
-    &&& f1.meta.pagesize == f0.meta.pagesize && f1.meta.tx_id == f0.meta.tx_id
-    &&& f1.meta.num_pages >= f0.meta.num_pages
-}
+//@include prelude/tree_frame_spec.rs
 impl<'b> InnerBucket<'b> {
     #[verifier::external_body]
     fn rebalance(&mut self, tx_freelist: &mut TxFreelist) -> (r: Result<()>)
